@@ -133,7 +133,7 @@ def _c11_vm_goal(case, out):
             files[rawp] = ino
             cont.append("(%d, %d%%N)" % (ino, tag * 1024 + 420))
             ino += 1
-    fs = "(mkFS %s %s %d [] [] [])" % (_vm_list(ents, "(path * node)"), _vm_list(cont, "(nat * N)"), ino)
+    fs = "(mkFS %s %s %d [] [] [] [])" % (_vm_list(ents, "(path * node)"), _vm_list(cont, "(nat * N)"), ino)
     ops = []
     for _ in range(int(nxt())):
         k = nxt()
@@ -231,7 +231,7 @@ def _c11_vm_sample(d, tier, coq, build):
 
 CONFIG = {
     "properties_file": "Properties/C11.v",
-    "proof_files": ["Base/Prelude.v", "Proofs/FileConfine.v", "Proofs/FileConfineSrc.v"],
+    "proof_files": ["Base/Prelude.v", "Proofs/FileConfine.v", "Proofs/FileConfineSrc.v", "Proofs/FileConfineTaint.v"],
     "model_files": ["Generated/GC11.v", "Model/FileConfine.v"],
     "extract": "XC11.v",
     "ml_main": "c11_main.ml",
@@ -242,19 +242,20 @@ CONFIG = {
     "timeout_thorough": 3000,
     "timeout_search": 900,
     "assumptions": [
+        "source facts: 26 guards / statements that the model mirrors (traversal test, where a hard link's old name is resolved, which Lstat results count as missing, link refusal, Chtimes guard, ...) are checked to be in the Go source verbatim on every run (kind c11_srcfact, Proofs/FileConfineSrc.v)",
         "kernel semantics are modelled, not verified: path resolution (component walk, '..' = physical parent, symbolic links followed up to 40 times, final link not followed by lstat/link/symlink/unlink, O_CREAT through a dangling link), link(2) not following a final symbolic link, hard links = shared inode; the model is tied to the real kernel + Go runtime only by the correspondence run",
         "every system call of the store, Lstat included (klstat), is a kernel walk in the model; under the theorem's hypotheses an Lstat sees exactly the tree's entry at the lexical location (C11_lstat_is_lookup); a working directory that is, or is opened through, a symbolic link is outside the theorems but judged by model + correspondence + oracle (physical location)",
         "path/filepath (Clean, Join, Rel, Dir, IsAbs, Abs) hand-modelled on component lists (lc / rel_under), Unix separators only; archive/tar and compress/gzip are abstracted to an entry list with header times plus three failure modes (gzip verification, broken tar stream, tar digest mismatch: PDirF); PAX headers, names up to 120 bytes per element, directory names with trailing slash are generated, USTAR prefix split / GNU long names / sparse / global headers are not; os.CreateTemp (temp files in TMPDIR are outside the statement) not modelled; ENAMETOOLONG and chains of more than 40 links / 3000 walk steps are errors and not compared",
         "times: the model records the time last set explicitly with utimes (os.Chtimes) per file inode / directory and the view contains it; implicit updates of times by writes are not modelled, so the correspondence compares times only for objects outside the working directory; the snapshot oracle compares the real modification time of every outside object",
         "permission bits are modelled (umask 022; the creation modes 0777 / mode|0700 are re-read from the source by the translator; recorded directory modes applied after the last entry of a successful extraction, exact with PreservePermissions, else narrowing; os.Chmod of regular files under PreservePermissions) for modes <= 0777; ownership and setuid/setgid/sticky bits are not modelled or generated",
         "content store: unnamed blobs and manifests sit in the fallback storage (modelled as names no title can have); digestToPath (content tag -> file it was last saved to) and Store.Fetch through it (os.Open of that file as it is now, following links: a read, not a mutation) are modelled; content verification is a flag (a tag that differs, or tag 0, fails: the file is written and removed again); content tags of one length only are generated (a shorter/longer stale file would be cut by the size limit before the mismatch)",
-        "Inv hypothesis (C11_confined_partial): the working directory exists and it and its ancestors are real directories; files below it share no inode with the outside. Nothing is assumed about symbolic links below the working directory. C11_confined_missing_wd replaces 'exists' by 'exists, or is missing with real ancestors and nothing below, or a regular file sits in its place' (a named blob titled like the missing working directory creates that file) for all histories. Pre-populated hard links to outside files: known finding shared-inode-*, C11_shared_inode_refuted",
+        "Inv hypothesis (C11_confined): the working directory exists and it and its ancestors are real directories; every inode that a file below it shares with a file outside is in the ghost set taint (a field of the model's tree that no operation reads or changes - proved: C11_taint_never_read, Proofs/FileConfineTaint.v; any tree satisfies this with a suitable taint). Ghost-free form C11_confined_any_tree: premises only 'the working directory and its ancestors are real directories' and 'inode numbers are below the counter'; an outside location's view changes only if it is a file one of whose other names lay below the working directory when the store was opened. Conclusion: outside the working directory every entry (existence, type, inode, link text) and every directory attribute is unchanged, and content / permission bits / times of files change only for tainted inodes - which is exactly the known finding shared-inode-* (C11_confined_view, C11_shared_inode_refuted); with taint = [] nothing changes (C11_confined_partial). Nothing is assumed about symbolic links below the working directory. C11_confined_missing_wd replaces 'exists' by 'exists, or is missing with real ancestors and nothing below, or a regular file sits in its place' (a named blob titled like the missing working directory creates that file) for all histories. Pre-populated hard links to outside files: known finding shared-inode-*, C11_shared_inode_refuted",
         "the working directory's own mode and times are the store's (inside wd wd = true; the snapshot ignores its mode and times, and the parent's modification time when the store creates the working directory) - its entry in the parent (existence, type, identity) is not: C11_working_directory_kept",
         "the write paths consult no remembered state: the translator lists every receiver field / method / package variable that ensureWriteDir, ensureDirNoSymlink, pushFile, pushDir, resolveWritePath, absPath, removeSymlink, writeFile, resolveRelToBase, ensureLinkPath, restoreDirModes, extractTarDirectory, extractTarGzip mention (kind c11_state_reads) and Proofs/FileConfineSrc.v pins the lists; Store.push's name status (duplicate names) is modelled as st_names",
         "the harness runs as root inside chroot(-dir) with umask 022; titles/entry names/targets are generated from a fixed grammar plus attack / revisit-history templates; no concurrency (check-then-act between Lstat and the system call is not in scope); every push has a 30 s watchdog; a run directory without POSIX modes, hard links or symbolic links is not supported",
     ],
-    "level_text": "Coq theorems over all trees satisfying the invariant (any symbolic links allowed), all histories of pushes on one store - named blobs (also failing verification), archives (regular, directory, symlink, hard link, other entries; any header times; also failing after gzip / in the tar stream / on the tar digest), unnamed content and manifests whose named layers are restored from the store - with all titles, names, link targets, PreservePermissions on/off and any process cwd: the view (existence, type, content, permission bits, time last set, link text) of every location outside the working directory is unchanged and the invariant preserved, also when the working directory does not exist yet; the working directory itself stays a real directory; the process cwd is irrelevant; titles, entry names (w.r.t. the working and the unpack directory), link targets, manifest layer titles and names with a link among their parents that resolve outside are rejected with an error; machine-checked counter-examples show the pre-repair code (each repair removed individually) escaping and the hypothesis on shared inodes being necessary. Model tied to the code by translator-pinned source facts (no remembered state in the write paths, creation modes), a differential run of the extracted model against Store.Push on a real file system inside a chroot with the whole tree compared after every push (plus an in-Coq vm_compute re-evaluation sample), and an independent before/after snapshot oracle",
-    "level_note": "partial: (1) a working directory pre-populated with hard links to outside files is overwritten in place (known finding shared-inode-*, not repaired; theorem hypothesis inv_ino); (2) a working directory that is / is reached through a symbolic link is covered by model + correspondence + oracle, not by a theorem; (3) kernel path resolution and path/filepath are modelled (tied by the correspondence run), not verified; implicit time updates, ownership, special mode bits, tar/gzip framing beyond the three failure modes and Lstat-then-act races are not modelled; seven fix: commits on /repo main from earlier rounds, none in this round",
+    "level_text": "Coq theorems over all trees whose working directory is reached through real directories (any symbolic links and any pre-populated hard links allowed), all histories of pushes on one store - named blobs (also failing verification), archives (regular, directory, symlink, hard link, other entries; any header times; also failing after gzip / in the tar stream / on the tar digest), unnamed content and manifests whose named layers are restored from the store - with all titles, names, link targets, PreservePermissions on/off and any process cwd: every entry outside the working directory (existence, type, inode, link text, directory attributes) is unchanged, content / permission bits / times of outside files change only for inodes that were shared with the working directory beforehand (none: the whole view is unchanged), and the invariant is preserved, also when the working directory does not exist yet; the working directory itself stays a real directory; the process cwd is irrelevant; titles, entry names (w.r.t. the working and the unpack directory), link targets, manifest layer titles and names with a link among their parents that resolve outside are rejected with an error; machine-checked counter-examples show the pre-repair code (each repair removed individually) escaping and the hypothesis on shared inodes being necessary. Model tied to the code by translator-pinned source facts (no remembered state in the write paths, creation modes), a differential run of the extracted model against Store.Push on a real file system inside a chroot with the whole tree compared after every push (plus an in-Coq vm_compute re-evaluation sample), and an independent before/after snapshot oracle",
+    "level_note": "the confinement theorem is full (C11_confined; ghost-free: C11_confined_any_tree): its only exception clause - content, mode and times of outside files whose inode was hard-linked into the working directory before the store was opened - is the behaviour recorded as known finding shared-inode-* (not repaired); remaining limits: (2) a working directory that is / is reached through a symbolic link is covered by model + correspondence + oracle, not by a theorem; (3) kernel path resolution and path/filepath are modelled (tied by the correspondence run), not verified; implicit time updates, ownership, special mode bits, tar/gzip framing beyond the three failure modes and Lstat-then-act races are not modelled; seven fix: commits on /repo main from earlier rounds, none in this round",
     "technique": "machine-checked proof in Coq (invariant over kernel path resolution with symbolic and hard links; lexical = physical lemma; frame theorem for every system call of the store) + model/implementation correspondence on a real file system + snapshot oracle",
     "explanation": "frame theorem (nothing outside the working directory changes) and invariant preservation for all push sequences of the repaired file store, proved in Coq; extracted model diffed against Store.Push (verdicts + full tree listing) on generated cases in a chroot sandbox; oracle = snapshot of everything outside the working directory before/after each Push + lexical outside-name rejection",
 }
